@@ -763,6 +763,7 @@ class Arr:
         self.term = term          # optional matrix-level term (see matmodel)
         self.meta = meta or {}
         self.fresh = True         # allocated by the analysed activation (frame analysis)
+        self.vecfn = None         # optional: leading index -> abstract vector (Vec term) of the last axis
 
     # -- shape ------------------------------------------------------------------
     @property
@@ -791,17 +792,23 @@ class Arr:
         return self._fn
 
     # -- fresh skolem cell --------------------------------------------------------
-    def skolem(self, base="i"):
+    def skolem(self, base="i", assume=True):
+        """fresh index; with assume=False returns (idx, range formula) instead of assuming it"""
         c = cur()
         idx = []
+        rng = []
         for ax in self.axes:
             t = []
             for n in ax:
                 i = c.fresh_int(base)
-                c.assume(z3.And(i >= 0, i < zi(n)))
+                rng.append(z3.And(i >= 0, i < zi(n)))
                 t.append(i)
             idx.append(tuple(t))
-        return tuple(idx)
+        if assume:
+            for r in rng:
+                c.assume(r)
+            return tuple(idx)
+        return tuple(idx), And_(*rng)
 
     def in_range(self, idx):
         cs = []
@@ -833,6 +840,11 @@ class Arr:
                     o.append(split_index(flat_index(t, na), oa))
             return old_fn(tuple(o))
         a = Arr(axes, fn, self.kind, self.label)
+        return a
+
+    def copy(self):
+        a = Arr(self.axes, self._fn, self.kind, self.label, self.term, dict(self.meta))
+        a.vecfn = self.vecfn
         return a
 
     def __repr__(self):
@@ -927,3 +939,34 @@ class Opaque:
 
     def __repr__(self):
         return f"Opaque({self.tag})"
+
+
+# ----------------------------------------------------------------------------------
+# abstract vectors (mode shapes): rank-3 pole tables are tables of vectors
+# ----------------------------------------------------------------------------------
+
+VecSort = z3.DeclareSort("Vec")
+NANVEC = z3.Const("NANVEC", VecSort)
+
+
+def vec_fns():
+    c = cur()
+    fns = c.memo.get("vecfns")
+    if fns is None:
+        fns = (z3.Function("vnan", VecSort, z3.BoolSort()),
+               z3.Function("vre", VecSort, z3.IntSort(), z3.RealSort()),
+               z3.Function("vim", VecSort, z3.IntSort(), z3.RealSort()))
+        c.memo["vecfns"] = fns
+        c.fact(fns[0](NANVEC))
+    return fns
+
+
+def vec_comp(v, k):
+    """component k of an abstract vector.  Modelling restriction: a mode-shape vector is either
+    entirely non-finite or entirely finite (vnan is a property of the whole vector)."""
+    vnan, vre, vim = vec_fns()
+    return C(vnan(v), vre(v, zi(k)), vim(v, zi(k)))
+
+
+def vec_isnan(v):
+    return vec_fns()[0](v)
